@@ -30,10 +30,11 @@ func init() {
 			{Name: "retry-conn", Weight: 2, Bubble: true, Run: c07RetryConn},
 			{Name: "retry-write-timeout", Weight: 1, Bubble: true, Run: c07RetryTimeout},
 			{Name: "slow-peer-with-read-timeout", Weight: 1, Bubble: true, Run: c07ReadTimeoutStall},
+			{Name: "write-timeout-window", Weight: 1, Bubble: true, Run: c07WriteWindow},
 			{Name: "sweep-retry", Run: c07Sweep, SweepN: c07SweepN, QuickSweep: true, Exhaustive: true,
 				SweepNote: "every sequence of up to 3 outcomes over {accept 0, 1, half, all} x {temporary, permanent, plain error} (then success), x retry budgets 0..3 x {io.Writer, MultistreamWriter}: 15 080 cases"},
 		},
-		MustProbes: []string{"writer-blocked-on-lock", "stall-with-queued-writers", "retry-resumed", "sctp-concurrent-writes", "sctp-write-stall", "retry-after-write-timeout", "write-timeout", "sctp-retry-while-reader-elsewhere", "answer-stalled-past-read-timeout"},
+		MustProbes: []string{"writer-blocked-on-lock", "stall-with-queued-writers", "retry-resumed", "sctp-concurrent-writes", "sctp-write-stall", "retry-after-write-timeout", "write-timeout", "sctp-retry-while-reader-elsewhere", "answer-stalled-past-read-timeout", "second-write-late-in-window"},
 	})
 }
 
@@ -123,7 +124,13 @@ func c07Concurrent(e *Env) {
 				op.api = "raw"
 			} else {
 				m := diam.NewMessage(900, diam.RequestFlag, 0, hbh, e2e, simDict())
-				m.NewAVP(avpSimOctets, 0, 0, datatype.OctetString(payload))
+				if t.Chance(1, 3) {
+					// an AVP given as a struct literal (code, flags, data: the documented minimum)
+					m.AddAVP(&diam.AVP{Code: avpSimOctets, Data: datatype.OctetString(payload)})
+					e.Probe("avp-struct-literal")
+				} else {
+					m.NewAVP(avpSimOctets, 0, 0, datatype.OctetString(payload))
+				}
 				op.msg = m
 			}
 			tk.ops = append(tk.ops, op)
@@ -1056,5 +1063,85 @@ func c07ReadTimeoutStall(e *Env) {
 	}
 	if sc.Closed() {
 		e.Fail("C07/closed-after-slow-write", "the answer went out whole after the stall, yet the library closed the connection")
+	}
+}
+
+// c07WriteWindow: Server.WriteTimeout = T bounds each write on its own. A first message goes
+// out at once; a second one is written when most of T has passed since and stalls for less
+// than T: it must reach the peer whole.
+func c07WriteWindow(e *Env) {
+	t := e.T
+	e.TrustWait = true
+	T := []time.Duration{90 * time.Millisecond, time.Second, 30 * time.Second}[t.Draw(3)]
+	sc := newSimConn(e, "c0", drawAddr(t, 3868), drawAddr(t, 40000))
+	lis := newSimListener(e)
+	mux := diam.NewServeMux()
+	got := make(chan diam.Conn, 1)
+	mux.HandleFunc("ALL", func(c diam.Conn, m *diam.Message) {
+		select {
+		case got <- c:
+		default:
+		}
+	})
+	srv := &diam.Server{Handler: mux, Dict: simDict(), WriteTimeout: T}
+	go srv.Serve(lis)
+	lis.Connect(sc)
+	sc.Deliver(RefMsg{Cmd: 900, Flags: 0x80, HbH: 1, E2E: 1, AVPs: []RefAVP{{Code: avpSimOctets, Data: []byte("hello")}}}.Bytes())
+	e.Quiesce()
+	var conn diam.Conn
+	select {
+	case conn = <-got:
+	default:
+		e.Harness("served connection did not reach the handler")
+	}
+	defer func() {
+		sc.Resume()
+		sc.EndRead(io.EOF, false)
+		lis.Close()
+		e.Quiesce()
+	}()
+	mk := func(k int, size int) (*diam.Message, []byte) {
+		payload := marker(0, k, size, byte(3+k))
+		m := diam.NewMessage(901, diam.RequestFlag, 0, uint32(70+k), uint32(80+k), simDict())
+		m.NewAVP(avpSimOctets, 0, 0, datatype.OctetString(payload))
+		return m, RefMsg{Cmd: 901, Flags: 0x80, HbH: uint32(70 + k), E2E: uint32(80 + k), AVPs: []RefAVP{{Code: avpSimOctets, Data: payload}}}.Bytes()
+	}
+	m1, want1 := mk(1, t.Range(0, 300))
+	if n, err := m1.WriteTo(conn); err != nil || int(n) != len(want1) {
+		e.Fail("C07/write-failed", "a write on an idle healthy connection failed: n=%d err=%v", n, err)
+		return
+	}
+	gap := []time.Duration{T / 3, 2 * T / 3, T - T/20, T + T/10}[t.Draw(4)]
+	e.Quiesce()
+	e.Advance(gap)
+	e.Quiesce()
+	m2, want2 := mk(2, c07Sizes(t))
+	stall := []time.Duration{T / 4, T / 2, T - T/10}[t.Draw(3)]
+	sc.ArmWriteFault(&WriteFault{Kind: "stall", After: t.Range(0, len(want2)-1)})
+	type res struct {
+		n   int64
+		err error
+	}
+	done := make(chan res, 1)
+	go func() { n, err := m2.WriteTo(conn); done <- res{n, err} }()
+	e.Quiesce()
+	e.Act("window", "T=%v gap=%v stall=%v len=%d", T, gap, stall, len(want2))
+	e.NonTrivial()
+	e.Advance(stall)
+	e.Quiesce()
+	if gap+stall > T && gap < T {
+		e.Probe("second-write-late-in-window")
+	}
+	sc.Resume()
+	e.Quiesce()
+	var r res
+	select {
+	case r = <-done:
+	default:
+		e.Fail("C07/write-never-returned/window", "the peer read again and the write did not return")
+		return
+	}
+	if r.err != nil || !bytes.Equal(sc.Written(), append(append([]byte{}, want1...), want2...)) {
+		e.Fail("C07/torn-message/write-window", "Server.WriteTimeout=%v: a message written %v after the previous one stalled in the transport for %v (less than the timeout) and did not reach the peer whole: n=%d of %d, err=%v", T, gap, stall, r.n, len(want2), r.err)
 	}
 }
